@@ -106,6 +106,7 @@ class FakeWriter:
         self.own_reader = None  # FakeReader of the same endpoint: sees EOF when the transport is closed
         self.on_lost = None  # callable(): tell the link that this end closed (peer will see EOF)
         self._close_waiter = None
+        self.lost_exc = None  # exception the transport was lost with: wait_closed() re-raises it (as asyncio does)
 
     def write(self, data):
         if not isinstance(data, (bytes, bytearray, memoryview)):
@@ -143,8 +144,13 @@ class FakeWriter:
             if not f.done():
                 f.set_result(None)
 
-    def fail(self, exc_cls=ConnectionResetError):
+    def fail(self, exc_cls=ConnectionResetError, lost=None):
+        """drain() raises from now on.  lost=<exception instance>: the transport was torn down with that error
+        (connection_lost(exc)): StreamWriter.wait_closed() raises it too - asyncio.StreamReaderProtocol puts the
+        exception into the close waiter."""
         self.broken = exc_cls
+        if lost is not None:
+            self.lost_exc = lost
         while self.waiters:
             f = self.waiters.popleft()
             if not f.done():
@@ -181,6 +187,9 @@ class FakeWriter:
     async def wait_closed(self):
         if not self.closed:
             raise RuntimeError("wait_closed() before close()")
+        if self.lost_exc is not None:
+            await asyncio.sleep(0)
+            raise self.lost_exc
         if self._close_waiter is None:
             self._close_waiter = asyncio.get_running_loop().create_future()
             if self.closed:
